@@ -279,7 +279,7 @@ EXTRA = {
            "set extension, replace placeholder, copy} on one live tag (7 subjects incl. tags that moved between the two "
            "versions) must leave the forms the XML model gives for (current schema, node, extension); copied-from objects "
            "unchanged.",
-    "C04": "Reserved family: ordered pairs (thorough triples) of 20 entries around Duration / Delay / Onset / Offset / Inset / "
+    "C04": "Reserved family: ordered pairs (thorough triples) of 27 entries around Duration / Delay / Onset / Offset / Inset / "
            "Event-context / Def under every one-group permutation, reversal and respelling.",
     "C05": "Descriptions include a quoted start and Unicode line-boundary characters; rooted library subtrees.",
     "C06": "Templates with the same reference twice; value cells with backslash escapes and '#'.",
